@@ -55,11 +55,11 @@ static std::string fmt(double x) {
   // scale the mantissa to an integer (53 bits)
   long long mi = (long long)std::ldexp(m, 53);
   e -= 53;
-  while ((mi & 1) == 0 && e < 0) { mi >>= 1; ++e; }
+  while ((mi % 2) == 0 && e < 0) { mi /= 2; ++e; }
   std::ostringstream o;
   if (e >= 0) {
     if (e > 9) return "big";
-    o << (mi << e);  // may only be used with small values; the generators keep |x| < 2^40
+    o << (mi * (1LL << e));  // (not mi << e: shifting a negative value is undefined before C++20); the generators keep |x| < 2^40
   } else {
     if (-e > 60) return "tiny";
     o << mi << "/" << (1LL << (-e));
